@@ -2,7 +2,7 @@ package main
 
 func init() {
 	register(&Check{
-		ID: "C04", Level: "model_checking", Engine: "E2-BFS", DesignRef: "DESIGN.md §4 C04, §3.3",
+		ID: "C04", Level: "model_checking", Engine: "E2-BFS+E1-ICB", DesignRef: "DESIGN.md §4 C04, §3.3",
 		Technique: "explicit-state breadth-first search over schedule / reschedule / remove / advance sequences on the real TimerWheel with virtual time, plus an exhaustive single-entry sweep (boundary deadlines x start times x advance patterns) and a step-driven run of the real Store paths",
 		LevelText: "the real TimerWheel is rebuilt and replayed for every operation sequence up to the depth bound (2 entries; deadlines adjacent to the slot boundaries and wrap-around of all five wheels, recomputed relative to the current wheel time in every state; advances of 1 s, 1 tick, 63/64/65 ticks and full rotations +-1 tick of every level, 10 days, and advances aimed at deadline-1ns / deadline / deadline+tick-1ns / deadline+tick / slot end); states are deduplicated on a canonical key (wheel time, per entry deadline, level, slot, list position) and every distinct state is additionally run to completion under three follow-up patterns (1 s ticker cadence, one jump to exactly deadline+2^30 ns, one far jump). After every operation the oracle checks: never reported before the deadline, reported exactly once, gone by the first advance at or after deadline + 2^30 ns, all 165 bucket rings well formed and every entry in the slot its deadline maps to. The right level because the property quantifies over deadlines, start phases and advance patterns jointly, and lateness only shows for particular alignments of the three.",
 		LevelNote: "bounded: 2 entries (3 in one thorough scenario), depth 3-4 operations before the follow-up, boundary-value families for deadlines (19 reduced / ~60 full per state), start times (3-8) and advance lengths (9 reduced / 21 full) - not all 2^63 times; nothing is modelled: TimerWheel, List and Entry are the repository's code and time is the explicit argument of advance (a fresh wheel's nanos field is set to the start time). The store scenario stops the two background goroutines and calls the same functions (Set, sinkWrite, the ticker body RefreshNowCache+advance(0, removeEntry)) in a fixed order with clock.Start shifted, so store-level concurrency (a TTL change racing the expiry between TimerWheel.expire's test and removeEntry's re-check) is only probed by a hand-made interleaving and reported as a note; it belongs to C02. Real-time accuracy of the Go ticker is out of scope (DESIGN §5). The *-past scenarios and store cases feed the wheel a deadline that already lies before the wheel time (an UPDATE/NEW event applied late); there the upper bound is counted from the moment of scheduling.",
@@ -14,8 +14,14 @@ func init() {
 			{Name: "C04/bfs-past-d3", Build: plain, Pkg: "internal", Test: "TestVerif_C04", Params: "mode=bfs,depth=3,ents=1,reddl=1,redadv=1,past=1,t0=small", Shards: 1, BudgetS: 60},
 			{Name: "C04/sweep", Build: plain, Pkg: "internal", Test: "TestVerif_C04", Params: "mode=sweep,t0=all", Shards: 2, BudgetS: 60},
 			{Name: "C04/store", Build: plain, Pkg: "internal", Test: "TestVerif_C04", Params: "mode=store,past=1", Shards: 1, BudgetS: 60},
+			{Name: "C04/icb-K1-tick-vs-size-poll", Build: schedCoarse, Pkg: "internal", Test: "TestVerif_C04_ICB", Params: "driver=K1-tick-vs-size-poll,P=2", Shards: 4, BudgetS: 60},
+			{Name: "C04/icb-K2-tick-vs-writes", Build: schedCoarse, Pkg: "internal", Test: "TestVerif_C04_ICB", Params: "driver=K2-tick-vs-writes,P=2", Shards: 8, BudgetS: 60},
+			{Name: "C04/icb-K3-tick-vs-reads", Build: schedCoarse, Pkg: "internal", Test: "TestVerif_C04_ICB", Params: "driver=K3-tick-vs-reads,P=2", Shards: 4, BudgetS: 60},
 		},
 		Thorough: []Scenario{
+			{Name: "C04/icb-K1-tick-vs-size-poll", Build: schedCoarse, Pkg: "internal", Test: "TestVerif_C04_ICB", Params: "driver=K1-tick-vs-size-poll,P=3", Shards: 8, BudgetS: 600},
+			{Name: "C04/icb-K2-tick-vs-writes", Build: schedCoarse, Pkg: "internal", Test: "TestVerif_C04_ICB", Params: "driver=K2-tick-vs-writes,P=3", Shards: 16, BudgetS: 600},
+			{Name: "C04/icb-K3-tick-vs-reads", Build: schedCoarse, Pkg: "internal", Test: "TestVerif_C04_ICB", Params: "driver=K3-tick-vs-reads,P=3", Shards: 8, BudgetS: 600},
 			{Name: "C04/bfs-d4", Build: plain, Pkg: "internal", Test: "TestVerif_C04", Params: "mode=bfs,depth=4,ents=2,reddl=1,redadv=0,t0=mid", Shards: 16, BudgetS: 780},
 			{Name: "C04/bfs-3ents-d4", Build: plain, Pkg: "internal", Test: "TestVerif_C04", Params: "mode=bfs,depth=4,ents=3,reddl=1,redadv=1,t0=small", Shards: 8, BudgetS: 780},
 			{Name: "C04/bfs-fulldl-d3", Build: plain, Pkg: "internal", Test: "TestVerif_C04", Params: "mode=bfs,depth=3,ents=2,reddl=0,redadv=0,t0=all", Shards: 16, BudgetS: 780},
